@@ -103,15 +103,22 @@ RequestRej(ask, min) ==
 (***************************************************************************)
 (* MsgReportData.  shape: "exact" (one raw report per requested external   *)
 (* id), "missing" (one left out), "extra" (one more), "wrongId" (right     *)
-(* number, one id not requested).                                          *)
+(* number, one id not requested), "perm" (exactly the requested ids in     *)
+(* another order: as good as "exact"), "dup" (right number, the last id    *)
+(* replaced by a copy of the first: not adjacent when three ids were       *)
+(* requested), "dupAdj" (the second id replaced by a copy of the first).   *)
+(* A report is a SET of answers, one per requested id: order is no part of *)
+(* it, a repeated id is never one.                                         *)
 (***************************************************************************)
+OKShapes == {"exact", "perm"}
+
 ReportAcceptable(v, id, shape) ==
     /\ id > lastExpired
     /\ id <= count
     /\ req[id].present
     /\ v \in req[id].vals
     /\ v \notin rep[id]
-    /\ shape = "exact"
+    /\ shape \in OKShapes
 
 Report(v, id, shape) ==
     IF ReportAcceptable(v, id, shape)
